@@ -219,6 +219,11 @@ class C10(Check):
                         c["round"] = list(order)
                         if sibrx: c["sibrx"] = sibrx
                         cases.append(c)
+            # idle periods between the reads: valid traffic, a skipped message, a give-up — the loop goes round again every time
+            for bad in bads:
+                c = self._mk(rng, side, bad, npre=2, npost=2, cuts=(9, 30))
+                c["idle"] = True
+                cases.append(c)
             # a connection that gave up keeps receiving data in LATER reads: complete valid messages, each in its own read,
             # must not be processed any more
             for bad in bads[:2]:
@@ -295,6 +300,7 @@ class C10(Check):
             total = 400
             cuts = sorted(rng.randint(1, total) for _ in range(rng.choice([0, 0, 1, 2, 4])))
             c = self._mk(rng, side, bytes(m), npre=rng.randint(0, 2), npost=rng.randint(0, 2), cuts=cuts)
+            if rng.random() < 0.3: c["idle"] = True             # idle periods (select time-outs) between the reads
             if rng.random() < 0.3:                              # all three connections readable in the same select rounds
                 c["round"] = rng.sample([0, 1, 2], 3)
                 if rng.random() < 0.4: c["sibrx"] = {"k": rng.choice([1, 2]), "at": rng.randint(0, 1), "kind": rng.choice(["eof", "reset", "pipe"])}
@@ -374,6 +380,10 @@ class C10(Check):
             return "dead" if raised[i] else "closed"
         def feed(i, data):
             if not alive[0] or cons[i] not in served: return False
+            if case.get("idle"):
+                # select times out with nothing to report (an idle period): the loop must simply go round again
+                try: g.send(([], [], []))
+                except StopIteration: alive[0] = False; return False
             socks[i].chunks.append(data)
             try:
                 with cpu_budget(4.0):
@@ -496,6 +506,7 @@ class C10(Check):
             # the head of its buffer) and its send side is shut down once flushed — but the worker stays in the loop and
             # whatever the peer still sends is still read: the loop must survive that too (no spinning on the same bytes)
             if workers[i] not in loop._workers or workers[i].closed: return False
+            if case.get("idle"): iteration([])               # an idle period: select times out with nothing to report
             socks[i].chunks.append(data); iteration([workers[i]])
             if i == 0 and shut_at[0] is None and is_shut(0): shut_at[0] = len(socks[0].sent) + len(workers[0].send_buf)
             return True
